@@ -300,7 +300,7 @@ class Observer:
                 if readable(cl):
                     self.do(["s2c", i])
                     moved = True
-                if cl.eq._calls:
+                if W.pending_turn(cl.index):
                     self.do(["turn", i])
                     moved = True
             if not moved:
@@ -373,7 +373,7 @@ def finish(W, ob, ops, do_close=True, rounds=6):
             if cl.svc.stopping is not None and not cl.svc.stopping.called:
                 emit(["svc_stopped", i])
                 progressed = True
-            if cl.eq._calls:
+            if W.pending_turn(cl.index):
                 emit(["turn", i])
                 progressed = True
         if not progressed:
@@ -397,7 +397,7 @@ def finish(W, ob, ops, do_close=True, rounds=6):
         if c0.svc.stopping is not None and not c0.svc.stopping.called:
             emit(["svc_stopped", 0])
             progressed = True
-        if c0.eq._calls:
+        if W.pending_turn(0):
             emit(["turn", 0])
             progressed = True
         if not progressed:
@@ -496,7 +496,7 @@ def guided(seed, n_ops, profile, welcome_error=None, finish_run=False):
                             emit(["c2s", p]); moved = True
                         if readable(cp):
                             emit(["s2c", p]); moved = True
-                        if cp.eq._calls:
+                        if W.pending_turn(p):
                             emit(["turn", p]); moved = True
                     if not moved:
                         break
@@ -570,7 +570,7 @@ def guided(seed, n_ops, profile, welcome_error=None, finish_run=False):
                                  rng.random() < 0.5]] * 6
             if c0.svc.stopping is not None and not c0.svc.stopping.called:
                 choices += [["svc_stopped", 0]] * 4
-            if c0.eq._calls:
+            if W.pending_turn(0):
                 # nothing of the delegated client is supposed to depend on eventual-queue turns, but if
                 # something was queued it must run (and must not fail) at some point
                 choices += [["turn", 0]] * 3
@@ -622,7 +622,7 @@ def guided(seed, n_ops, profile, welcome_error=None, finish_run=False):
                         choices += [["c2s", p]] * 8
                     if cp.conn.s2c and profile != "crowded":
                         choices += [["s2c", p]] * 8
-                if cp.eq._calls:
+                if W.pending_turn(p):
                     choices += [["turn", p]] * 2
                 if cp.svc.stopping is not None and not cp.svc.stopping.called:
                     choices += [["svc_stopped", p]] * 2
